@@ -18,7 +18,7 @@ def nontrivial(evs):
 
 RULE = ("TLC behaviours of Gen_CalcEnv (environment transition cover = every arrival order, reversion and deletion of up to 2/3 keys) "
         "bound by seed to keys of the `routes` universe (pools vxlan / vxlan-cross-subnet / ipip / ipip-cross-subnet / none and a "
-        "nested pool, local and remote blocks with borrowed addresses and changing owners, three nodes in and out of the local "
+        "second disjoint pool, local and remote blocks with borrowed addresses and changing owners, three nodes in and out of the local "
         "subnet, tunnel addresses, a local workload inside local and remote blocks) with a seeded background, + seeded random "
         "histories; at every in-sync flush TLC requires for every block with an owner and every borrowed address: a route naming "
         "the owner, REMOTE_/LOCAL_WORKLOAD typed, pool type of the most specific covering pool, SameSubnet <=> pool is cross-subnet "
@@ -87,7 +87,7 @@ def selftest(ctx):
 
 MANIFEST = dict(
     text="Resolver level: every arrival order, reversion and deletion of node, pool, block and workload updates (TLC-generated from the "
-         "syncer contract over a routes universe with all pool encapsulation modes, nested pools, borrowed addresses, nodes inside and "
+         "syncer contract over a routes universe with all pool encapsulation modes, disjoint pools, borrowed allocations and borrowed tunnel addresses, nodes inside and "
          "outside the local subnet) is replayed on the real calculation graph; at every in-sync flush TLC (Nets.tla prefix arithmetic) "
          "requires each remote block / borrowed address to have a RouteUpdate naming the owning node and its current address, with the "
          "pool type of its most specific pool and SameSubnet exactly when the pool is cross-subnet and the owner lies in the local "
